@@ -400,7 +400,8 @@ CHECKS["C08"] = dict(
 
 CHECKS["C20"] = dict(
     harness="C20_relay", sources=["props/C20_relay.cc", "shim/shim.c", "pki/pki.cc"], variant="asan",
-    prebuild=[("VF_RELAY_EXE", "build_relay")],
+    prebuild=[("VF_RELAY_EXE", "build_relay_asan")],
+    trust_unconfirmed=r"relay process exited \(status 0x(b|6|8|4|86|8b|84|6300)\)",
     level="exploration", engine="rapidcheck plans + the real xcmrelay built from the tree, run as a child process between harness endpoints",
     technique="model-based property testing at process level: generated bidirectional traffic, bursts up to "
               "back-pressure, pauses and closes through the real relay; end-to-end ledger oracle, close "
